@@ -319,7 +319,7 @@ func runInstance(prog *sx.Program, h Harness, params []int64, tier string, known
 		ir.Err = "harness function not found: " + h.Func
 		return
 	}
-	initPkgs := []string{sx.ModPath + "/pkg/" + h.Pkg}
+	initPkgs := []string{sx.VrfPkg, sx.ModPath + "/pkg/" + h.Pkg}
 	for _, p := range h.InitPkgs {
 		initPkgs = append(initPkgs, sx.ModPath+"/pkg/"+p)
 	}
